@@ -42,22 +42,48 @@
      `certified3_TU_mathlib`, `certified3Id_TU` and `tree_TU_partial3` (as `tree_TU_partial`, node types deltasum and
      ysum allowed).
 
-  Out of scope: 3-sum nodes of Truemper's form (type `threesum`, composed by `compose3`): the TU closure of `compose3`
-  is not proved in this project, so `Certified3` has no constructor for them and `tree_TU_partial3` excludes them;
-  Δ- and Y-sum nodes of binary trees (`composeDelta 2` / `composeY 2` reduce modulo 2; closure is proved only for
-  `ch = 3`); pivot nodes of binary trees (a GF(2) pivot does not preserve total unimodularity of the 0/1 matrix; it
-  preserves regularity, which is not the subject here); and the total unimodularity of the leaves.
+     (When §5 was written the TU closure of `compose3` was not yet proved, so `Certified3` has no constructor for
+     3-sum nodes and `tree_TU_partial3` excludes them; §6 closes this gap with a further predicate.)
+  6. 3-sum nodes of ternary trees (Truemper's form, type `threesum`; `threesum_node_TU`): from
+     `C03.threesum_recomposes` (the checker composes the children with `compose3` at the ten recorded special lines and
+     compares with the node's matrix read along permutations `rho`, `kap`), the closure theorem
+     `C12Three.compose3_TU` and `C10.tu_P`.  The checker passes `fun N => chOf nd != 3 || isTU 3 3 N` as the test of
+     the connecting matrix `N`; for a ternary node (`chOf nd = 3`) this is the function `fun N => isTU 3 3 N` of
+     `compose3_TU` (`tuCheck_ternary`, by `rfl`).  Shape facts as in §5 (`threesum_shape`:
+     `(m0-2)+(m1-1) = numRows`, `(n0-1)+(n1-2) = numCols` if the node has a row), through `composed_shape` and
+     `C12.compose3_wf`.
+     The closure predicate with all constructors is the new inductive type `Certified4` (`Certified3` and everything
+     about it unchanged; `certified4_of_certified3` embeds it), with `certified4_TU`, `certified4_TU_mathlib`,
+     `certified4Id_TU`.  `accepted_type`: a node accepted by `checkRecompose` is a leaf or has one of the seven inner
+     types (series-parallel, pivots, 1-, 2-, Δ-, Y-, 3-sum) — any other type makes `sumSpec` fail — so the whole-tree
+     theorem `tree_TU_partial4` needs *no* hypothesis on the node types any more:
+
+       in a ternary tree accepted by `checkTree`, with child ids larger than parent ids (`hord`) and entries in
+       {-1,0,1}, in which all leaves are totally unimodular, every node is totally unimodular.
+
+  What remains a hypothesis of `tree_TU_partial4` (hence still `_partial`):
+    * the total unimodularity of the leaves (`hleaf`: graphic, cographic, planar, R10, unknown, irregular leaves are
+      not proved TU in this project);
+    * the ordering invariant `hord` (children have larger ids than their parent; not checked by `checkTree`, but
+      checked by the judge on every dumped tree — the pre-order id invariant);
+    * ternarity (`hfield`): every node has `ternary = true` and a matrix with entries in {-1,0,1}.
+  Binary trees are excluded: Δ-, Y- and 3-sum nodes of binary trees (`composeDelta 2` / `composeY 2` / `compose3 2`
+  reduce modulo 2, and for `ch = 2` the checker does not even test the connecting matrix `N` of a 3-sum; closure is
+  proved only for `ch = 3`) and pivot nodes of binary trees (a GF(2) pivot does not preserve total unimodularity of the
+  0/1 matrix; it preserves regularity, which is not the subject here) are out of scope; only 1-sums (any field),
+  series-parallel nodes and 2-sums of 0/1 children (`twosum_node_TU_binary_partial`) are covered there.
 
   Hypotheses that had to be added, and why:
     * `isTernary nd.matrix.toDense` for series-parallel and pivot nodes (a unit line with entry 2 is accepted by
       `applyReductions`; `pivots3` reduces modulo 3);
-    * `nd.ternary = true` for 2-sum, Δ-sum, Y-sum and pivot nodes (the field decides which composition / pivot the
-      checker uses);
+    * `nd.ternary = true` for 2-sum, Δ-sum, Y-sum, 3-sum and pivot nodes (the field decides which composition / pivot
+      the checker uses, and for 3-sums whether `N` is tested at all);
     * for 2-sum nodes of binary trees: the children are 0/1 matrices (`compose2a 2` reduces modulo 2).
 -/
 import CmrProofs.Props.C03
 import CmrProofs.Props.C10
 import CmrProofs.Props.C12Delta
+import CmrProofs.Props.C12Three
 
 set_option linter.unusedSimpArgs false
 set_option linter.unusedVariables false
@@ -904,5 +930,282 @@ example : checkTree [z0, z1 1, z1 2] = .ok () ∧
     ((z1 1).matrix.numCols - 2) + ((z1 2).matrix.numCols - 2) ≠ z0.matrix.numCols := ⟨rfl, by decide⟩
 
 end Examples3
+
+/-! ### 6. 3-sum nodes of ternary trees, and the whole tree without a hypothesis on the node types -/
+
+/-- The test of the connecting matrix that `checkRecompose` hands to `compose3` is, for a ternary node, the oracle
+`isTU 3 3` of `C12Three.compose3_TU`.  (For `ch = 2` it is the constant `true`: binary 3-sum nodes are not tested.) -/
+theorem tuCheck_ternary {ch : Nat} (hch : ch = 3) :
+    (fun N : Mat => ch != 3 || isTU 3 3 N) = fun N => isTU 3 3 N := by
+  subst hch
+  rfl
+
+/-- what the checker guarantees at a 3-sum node, with the shapes made explicit (as `deltasum_shape`; the column
+equation needs a node with at least one row, for the same reason) -/
+theorem threesum_shape {nodes : List FNode} {nd : FNode} (h : checkRecompose nodes nd = .ok ())
+    (ht : nd.type = NodeType.threesum) :
+    ∃ c0 k0 c1 k1, nd.children = [c0, c1] ∧ findNode nodes c0.child = some k0 ∧ findNode nodes c1.child = some k1 ∧
+      ∃ ri rj ck cl cz rg ri2 rj2 ck2 cl2 P rho kap,
+        compose3 (chOf nd) k0.matrix.numRows k0.matrix.numCols k0.matrix.toDense k1.matrix.numRows k1.matrix.numCols
+          k1.matrix.toDense ri rj ck cl cz rg ri2 rj2 ck2 cl2 (fun N => chOf nd != 3 || isTU 3 3 N) = .ok P ∧
+        isPerm rho nd.matrix.numRows = true ∧ isPerm kap nd.matrix.numCols = true ∧
+        P = sub nd.matrix.toDense rho kap ∧
+        (k0.matrix.numRows - 2) + (k1.matrix.numRows - 1) = nd.matrix.numRows ∧
+        (0 < nd.matrix.numRows → (k0.matrix.numCols - 1) + (k1.matrix.numCols - 2) = nd.matrix.numCols) := by
+  obtain ⟨c0, k0, c1, k1, hc, hf0, hf1, ri, rj, ck, cl, cz, rg, ri2, rj2, ck2, cl2, _, P, rho, kap, hP, p1, p2, hM, _⟩ :=
+    C03.threesum_recomposes h ht
+  obtain ⟨e1, e2⟩ := composed_shape (C12.compose3_wf hP) p1 p2 hM
+  exact ⟨c0, k0, c1, k1, hc, hf0, hf1, ri, rj, ck, cl, cz, rg, ri2, rj2, ck2, cl2, P, rho, kap, hP, p1, p2, hM, e1, e2⟩
+
+/-- **3-sum node of a ternary tree**: if both children are totally unimodular, so is the node
+(`C12Three.compose3_TU`). -/
+theorem threesum_node_TU {nodes : List FNode} {nd : FNode} (h : checkRecompose nodes nd = .ok ())
+    (ht : nd.type = NodeType.threesum) (hf : nd.ternary = true)
+    (hchild : ∀ ci ∈ nd.children, ∀ k, findNode nodes ci.child = some k →
+      isTU k.matrix.numRows k.matrix.numCols k.matrix.toDense = true) :
+    isTU nd.matrix.numRows nd.matrix.numCols nd.matrix.toDense = true := by
+  obtain ⟨c0, k0, c1, k1, hc, hf0, hf1, ri, rj, ck, cl, cz, rg, ri2, rj2, ck2, cl2, P, rho, kap, hP, p1, p2, hM, _, _⟩ :=
+    threesum_shape h ht
+  have hch : chOf nd = 3 := by simp [chOf, hf]
+  rw [tuCheck_ternary hch, hch] at hP
+  have h0 := hchild c0 (by rw [hc]; simp) k0 hf0
+  have h1 := hchild c1 (by rw [hc]; simp) k1 hf1
+  exact sum_node_TU_of_composed (C12.compose3_wf hP) (C12Three.compose3_TU hP h0 h1) p1 p2 hM
+
+/-- Inductive closure as `Certified3`, extended by 3-sum nodes of ternary trees: all node types that
+`checkRecompose` accepts (`accepted_type`) have a constructor.  (Again a new predicate, so that `Certified3` and the
+theorems about it stay as they are; `certified4_of_certified3` embeds the old one.) -/
+inductive Certified4 (nodes : List FNode) : FNode → Prop
+  | base {nd : FNode} (hTU : isTU nd.matrix.numRows nd.matrix.numCols nd.matrix.toDense = true) : Certified4 nodes nd
+  | sp {nd : FNode} (h : checkRecompose nodes nd = .ok ()) (ht : nd.type = NodeType.seriesParallel)
+      (hter : isTernary nd.matrix.toDense = true)
+      (hkids : ∀ ci ∈ nd.children, ∀ k, findNode nodes ci.child = some k → Certified4 nodes k) : Certified4 nodes nd
+  | onesum {nd : FNode} (h : checkRecompose nodes nd = .ok ()) (ht : nd.type = NodeType.onesum)
+      (hkids : ∀ ci ∈ nd.children, ∀ k, findNode nodes ci.child = some k → Certified4 nodes k) : Certified4 nodes nd
+  | twosum {nd : FNode} (h : checkRecompose nodes nd = .ok ()) (ht : nd.type = NodeType.twosum)
+      (hf : nd.ternary = true)
+      (hkids : ∀ ci ∈ nd.children, ∀ k, findNode nodes ci.child = some k → Certified4 nodes k) : Certified4 nodes nd
+  | twosumBinary {nd : FNode} (h : checkRecompose nodes nd = .ok ()) (ht : nd.type = NodeType.twosum)
+      (hf : nd.ternary = false)
+      (hbin : ∀ ci ∈ nd.children, ∀ k, findNode nodes ci.child = some k → isBinary k.matrix.toDense = true)
+      (hkids : ∀ ci ∈ nd.children, ∀ k, findNode nodes ci.child = some k → Certified4 nodes k) : Certified4 nodes nd
+  | pivots {nd : FNode} (h : checkRecompose nodes nd = .ok ()) (ht : nd.type = NodeType.pivots)
+      (hf : nd.ternary = true) (hter : isTernary nd.matrix.toDense = true)
+      (hkids : ∀ ci ∈ nd.children, ∀ k, findNode nodes ci.child = some k → Certified4 nodes k) : Certified4 nodes nd
+  | deltasum {nd : FNode} (h : checkRecompose nodes nd = .ok ()) (ht : nd.type = NodeType.deltasum)
+      (hf : nd.ternary = true)
+      (hkids : ∀ ci ∈ nd.children, ∀ k, findNode nodes ci.child = some k → Certified4 nodes k) : Certified4 nodes nd
+  | ysum {nd : FNode} (h : checkRecompose nodes nd = .ok ()) (ht : nd.type = NodeType.ysum)
+      (hf : nd.ternary = true)
+      (hkids : ∀ ci ∈ nd.children, ∀ k, findNode nodes ci.child = some k → Certified4 nodes k) : Certified4 nodes nd
+  | threesum {nd : FNode} (h : checkRecompose nodes nd = .ok ()) (ht : nd.type = NodeType.threesum)
+      (hf : nd.ternary = true)
+      (hkids : ∀ ci ∈ nd.children, ∀ k, findNode nodes ci.child = some k → Certified4 nodes k) : Certified4 nodes nd
+
+theorem certified4_of_certified3 {nodes : List FNode} {nd : FNode} (hc : Certified3 nodes nd) : Certified4 nodes nd := by
+  induction hc with
+  | base hTU => exact .base hTU
+  | sp h ht hter _ ih => exact .sp h ht hter ih
+  | onesum h ht _ ih => exact .onesum h ht ih
+  | twosum h ht hf _ ih => exact .twosum h ht hf ih
+  | twosumBinary h ht hf hbin _ ih => exact .twosumBinary h ht hf hbin ih
+  | pivots h ht hf hter _ ih => exact .pivots h ht hf hter ih
+  | deltasum h ht hf _ ih => exact .deltasum h ht hf ih
+  | ysum h ht hf _ ih => exact .ysum h ht hf ih
+
+/-- **TU certification of a decomposition tree, all inner node types**: every `Certified4` node is totally
+unimodular. -/
+theorem certified4_TU {nodes : List FNode} {nd : FNode} (hc : Certified4 nodes nd) :
+    isTU nd.matrix.numRows nd.matrix.numCols nd.matrix.toDense = true := by
+  induction hc with
+  | base hTU => exact hTU
+  | sp h ht hter _ ih => exact C03.sp_node_TU_partial h ht hter ih
+  | onesum h ht _ ih => exact onesum_node_TU h ht ih
+  | twosum h ht hf _ ih => exact twosum_node_TU h ht hf ih
+  | twosumBinary h ht hf hbin _ ih => exact twosum_node_TU_binary_partial h ht hf hbin ih
+  | pivots h ht hf hter _ ih => exact pivot_node_TU h ht hf hter ih
+  | deltasum h ht hf _ ih => exact deltasum_node_TU h ht hf ih
+  | ysum h ht hf _ ih => exact ysum_node_TU h ht hf ih
+  | threesum h ht hf _ ih => exact threesum_node_TU h ht hf ih
+
+/-- … in Mathlib's sense. -/
+theorem certified4_TU_mathlib {nodes : List FNode} {nd : FNode} (hc : Certified4 nodes nd) :
+    (toMx nd.matrix.numRows nd.matrix.numCols nd.matrix.toDense).IsTotallyUnimodular :=
+  (isTU_iff _ _ _).mp (certified4_TU hc)
+
+def Certified4Id (nodes : List FNode) (i : Nat) : Prop := ∃ nd, findNode nodes i = some nd ∧ Certified4 nodes nd
+
+theorem certified4Id_TU {nodes : List FNode} {i : Nat} (hc : Certified4Id nodes i) :
+    ∃ nd, findNode nodes i = some nd ∧ isTU nd.matrix.numRows nd.matrix.numCols nd.matrix.toDense = true := by
+  obtain ⟨nd, hf, h⟩ := hc
+  exact ⟨nd, hf, certified4_TU h⟩
+
+/-- The node types that `checkRecompose` accepts: the leaf types and the seven inner types the library produces.  (Any
+other type falls through to the sum branch of the checker, where `sumSpec` reports "unknown node type".) -/
+theorem accepted_type {nodes : List FNode} {nd : FNode} (h : checkRecompose nodes nd = .ok ()) :
+    nd.type ∈ leafTypes ∨ nd.type = NodeType.seriesParallel ∨ nd.type = NodeType.pivots ∨
+      nd.type = NodeType.onesum ∨ nd.type = NodeType.twosum ∨ nd.type = NodeType.deltasum ∨ nd.type = NodeType.ysum ∨
+      nd.type = NodeType.threesum := by
+  obtain ⟨_, _, kids, _, _, hb⟩ := (checkRecompose_ok_iff nodes nd).mp h
+  by_cases h1 : nd.type ∈ leafTypes
+  · exact Or.inl h1
+  by_cases h2 : nd.type = NodeType.seriesParallel
+  · exact Or.inr (Or.inl h2)
+  by_cases h3 : nd.type = NodeType.pivots
+  · exact Or.inr (Or.inr (Or.inl h3))
+  by_cases h4 : nd.type = NodeType.onesum
+  · exact Or.inr (Or.inr (Or.inr (Or.inl h4)))
+  by_cases h5 : nd.type = NodeType.twosum
+  · exact Or.inr (Or.inr (Or.inr (Or.inr (Or.inl h5))))
+  by_cases h6 : nd.type = NodeType.deltasum
+  · exact Or.inr (Or.inr (Or.inr (Or.inr (Or.inr (Or.inl h6)))))
+  by_cases h7 : nd.type = NodeType.ysum
+  · exact Or.inr (Or.inr (Or.inr (Or.inr (Or.inr (Or.inr (Or.inl h7))))))
+  by_cases h8 : nd.type = NodeType.threesum
+  · exact Or.inr (Or.inr (Or.inr (Or.inr (Or.inr (Or.inr (Or.inr h8))))))
+  exfalso
+  have hl : leafTypes.contains nd.type = false := by simpa using h1
+  have hbody : recompBody nd kids = recompSum nd kids := by
+    unfold recompBody
+    simp only [hl, beq_iff_eq, h2, h3, h4, if_false, Bool.false_eq_true]
+  rw [hbody, recompSum_ok_iff] at hb
+  obtain ⟨c0, k0, c1, k1, _, _, _, _, _, P, _, _, _, _, hP, _⟩ := hb
+  unfold sumSpec at hP
+  simp only [beq_iff_eq, h5, h6, h7, h8, if_false] at hP
+  cases hP
+
+/-- **A whole ternary tree, every node type** (partial only in that the three hypotheses below remain).  In a ternary
+tree accepted by `checkTree` all of whose matrices have entries in {-1,0,1} (`hfield`), in which child ids are larger
+than parent ids (`hord`: not checked by `checkTree`, but checked by the judge on every dumped tree) and whose leaves are
+totally unimodular (`hleaf`), every node is totally unimodular.  No hypothesis on the node types: an accepted node is a
+leaf or a series-parallel, pivot, 1-sum, 2-sum, Δ-sum, Y-sum or 3-sum node (`accepted_type`), and each of these
+preserves total unimodularity over GF(3). -/
+theorem tree_TU_partial4 {nodes : List FNode} (hT : checkTree nodes = .ok ())
+    (hord : ∀ nd ∈ nodes, ∀ ci ∈ nd.children, nd.id < ci.child)
+    (hfield : ∀ nd ∈ nodes, nd.ternary = true ∧ isTernary nd.matrix.toDense = true)
+    (hleaf : ∀ nd ∈ nodes, nd.type ∈ leafTypes → isTU nd.matrix.numRows nd.matrix.numCols nd.matrix.toDense = true) :
+    ∀ nd ∈ nodes, Certified4 nodes nd ∧ isTU nd.matrix.numRows nd.matrix.numCols nd.matrix.toDense = true := by
+  have step : ∀ nd ∈ nodes, (∀ ci ∈ nd.children, ∀ k, findNode nodes ci.child = some k → Certified4 nodes k) →
+      Certified4 nodes nd := by
+    intro nd hm hkids
+    have hrec := (C03.checkTree_all_nodes hT nd hm).1
+    rcases accepted_type hrec with ht | ht | ht | ht | ht | ht | ht | ht
+    · exact Certified4.base (hleaf nd hm ht)
+    · exact Certified4.sp hrec ht (hfield nd hm).2 hkids
+    · exact Certified4.pivots hrec ht (hfield nd hm).1 (hfield nd hm).2 hkids
+    · exact Certified4.onesum hrec ht hkids
+    · exact Certified4.twosum hrec ht (hfield nd hm).1 hkids
+    · exact Certified4.deltasum hrec ht (hfield nd hm).1 hkids
+    · exact Certified4.ysum hrec ht (hfield nd hm).1 hkids
+    · exact Certified4.threesum hrec ht (hfield nd hm).1 hkids
+  have key : ∀ d, ∀ nd ∈ nodes, maxId nodes - nd.id ≤ d → Certified4 nodes nd := by
+    intro d
+    induction d with
+    | zero =>
+      intro nd hm hd
+      refine step nd hm (fun ci hci k hk => ?_)
+      obtain ⟨hkm, hid⟩ := findNode_spec hk
+      have := hord nd hm ci hci
+      have := le_maxId hkm
+      omega
+    | succ d ih =>
+      intro nd hm hd
+      refine step nd hm (fun ci hci k hk => ?_)
+      obtain ⟨hkm, hid⟩ := findNode_spec hk
+      have := hord nd hm ci hci
+      have := le_maxId hkm
+      exact ih k hkm (by omega)
+  intro nd hm
+  have := key _ nd hm (Nat.le_refl _)
+  exact ⟨this, certified4_TU this⟩
+
+/-! ### non-vacuity, 3-sum nodes -/
+
+section Examples4
+
+/-- 3-sum root: the 5×5 matrix of the second example of `C12Three` (connecting matrix `Q = [[0,-1],[1,1]]`,
+`(α;β) = (-1;1)`, `(γ δ) = (1 1)`), composed from the 4×4 leaves `u1` (special rows 2, 3 = `C_i`, `C_j`; special columns
+0, 1 = the columns of `Q`, and 3 = `(0;α;β)`) and `u2` (special rows 0 = `(γ δ 0)`, and 1, 2 = the rows of `Q`; special
+columns 0, 1 = `C_k`, `C_l`).  The node keeps rows 0, 1 and columns 0, 1, 2 of `u1`, rows 1, 2, 3 and columns 2, 3 of
+`u2`. -/
+def u0 : FNode := nodeT 0 NodeType.threesum
+  { numRows := 5, numCols := 5, nnz := 17, slice := [0, 2, 4, 8, 12, 17],
+    cols := [0, 2, 0, 2, 1, 2, 3, 4, 0, 1, 2, 3, 0, 1, 2, 3, 4],
+    vals := [-1, 1, -1, 1, -1, 1, -1, -1, 1, 1, -1, 1, -1, -1, 1, -1, -1] }
+  [kidS [-1, -2, 0, 0] [1, 2, 3, 0] [some 2, some 3] [some 0, some 1, some 3] 1,
+   kidS [0, -3, -4, -5] [0, 0, 4, 5] [some 0, some 1, some 2] [some 0, some 1] 2]
+/-- `[[-1,0,1,0],[-1,0,1,0],[0,-1,1,-1],[1,1,-1,1]]` -/
+def u1 : FNode := nodeT 1 NodeType.unknown
+  { numRows := 4, numCols := 4, nnz := 11, slice := [0, 2, 4, 7, 11], cols := [0, 2, 0, 2, 1, 2, 3, 0, 1, 2, 3],
+    vals := [-1, 1, -1, 1, -1, 1, -1, 1, 1, -1, 1] } []
+/-- `[[1,1,0,0],[0,-1,-1,-1],[1,1,1,0],[-1,-1,-1,-1]]` -/
+def u2 : FNode := nodeT 2 NodeType.unknown
+  { numRows := 4, numCols := 4, nnz := 12, slice := [0, 2, 5, 8, 12], cols := [0, 1, 1, 2, 3, 0, 1, 2, 0, 1, 2, 3],
+    vals := [1, 1, -1, -1, -1, 1, 1, 1, -1, -1, -1, -1] } []
+
+def tree4 : List FNode := [u0, u1, u2]
+
+example : u0.matrix.toDense =
+    [[-1, 0, 1, 0, 0], [-1, 0, 1, 0, 0], [0, -1, 1, -1, -1], [1, 1, -1, 1, 0], [-1, -1, 1, -1, -1]] := by decide
+
+/-- the example tree (a 3-sum root over two TU leaves) is accepted -/
+example : checkTree tree4 = .ok () := rfl
+
+/-- `threesum_node_TU` applies to the root (its children are TU by evaluation) -/
+example : isTU 5 5 u0.matrix.toDense = true :=
+  threesum_node_TU (nodes := tree4) (nd := u0) rfl rfl rfl
+    (kids_two (nodes := tree4) (c := kidS [-1, -2, 0, 0] [1, 2, 3, 0] [some 2, some 3] [some 0, some 1, some 3] 1)
+      (d := kidS [0, -3, -4, -5] [0, 0, 4, 5] [some 0, some 1, some 2] [some 0, some 1] 2) (k := u1) (l := u2) rfl rfl
+      (by decide) (by decide))
+
+/-- the root is certified, constructor by constructor -/
+theorem tree4_certified : Certified4 tree4 u0 := by
+  have c1 : Certified4 tree4 u1 := .base (by decide)
+  have c2 : Certified4 tree4 u2 := .base (by decide)
+  exact .threesum rfl rfl rfl
+    (kids_two (nodes := tree4) (c := kidS [-1, -2, 0, 0] [1, 2, 3, 0] [some 2, some 3] [some 0, some 1, some 3] 1)
+      (d := kidS [0, -3, -4, -5] [0, 0, 4, 5] [some 0, some 1, some 2] [some 0, some 1] 2) rfl rfl c1 c2)
+
+example : isTU 5 5 [[-1, 0, 1, 0, 0], [-1, 0, 1, 0, 0], [0, -1, 1, -1, -1], [1, 1, -1, 1, 0], [-1, -1, 1, -1, -1]] = true :=
+  certified4_TU tree4_certified
+
+example : Certified4Id tree4 0 := ⟨u0, rfl, tree4_certified⟩
+
+/-- the old predicates embed -/
+example : Certified4 tree3 s0 := certified4_of_certified3 tree3_certified
+example : Certified4 tree t0 := certified4_of_certified3 (certified3_of_certified tree_certified)
+
+/-- the hypotheses of `tree_TU_partial4` are satisfiable: they hold for the 3-sum tree, and for the two earlier example
+trees (no list of node types has to be supplied any more) -/
+example : ∀ nd ∈ tree4, Certified4 tree4 nd ∧ isTU nd.matrix.numRows nd.matrix.numCols nd.matrix.toDense = true :=
+  tree_TU_partial4 rfl (by decide) (by decide) (by decide)
+
+example : ∀ nd ∈ tree3, Certified4 tree3 nd ∧ isTU nd.matrix.numRows nd.matrix.numCols nd.matrix.toDense = true :=
+  tree_TU_partial4 rfl (by decide) (by decide) (by decide)
+
+example : ∀ nd ∈ tree, Certified4 tree nd ∧ isTU nd.matrix.numRows nd.matrix.numCols nd.matrix.toDense = true :=
+  tree_TU_partial4 rfl (by decide) (by decide) (by decide)
+
+/-- a second 3-sum tree, with identity connecting matrix: root and both leaves are `[[1,1,0],[1,0,1],[0,1,-1]]` (first
+example of `C12Three`) -/
+def csrW : Csr :=
+  { numRows := 3, numCols := 3, nnz := 6, slice := [0, 2, 4, 6], cols := [0, 1, 0, 2, 1, 2], vals := [1, 1, 1, 1, 1, -1] }
+def w0 : FNode := nodeT 0 NodeType.threesum csrW
+  [kidS [-1, 0, 0] [1, 2, 0] [some 1, some 2] [some 0, some 1, some 2] 1,
+   kidS [0, -2, -3] [0, 0, 3] [some 0, some 1, some 2] [some 0, some 1] 2]
+def w1 (id : Nat) : FNode := nodeT id NodeType.unknown csrW []
+
+example : ∀ nd ∈ [w0, w1 1, w1 2],
+    Certified4 [w0, w1 1, w1 2] nd ∧ isTU nd.matrix.numRows nd.matrix.numCols nd.matrix.toDense = true :=
+  tree_TU_partial4 rfl (by decide) (by decide) (by decide)
+
+/-- `accepted_type` is sharp: a node of a type outside the list (here 99) is rejected -/
+example : checkRecompose [nodeT 0 99 csrW []] (nodeT 0 99 csrW []) ≠ .ok () := by decide
+
+/-- Why `nd.ternary = true` is needed at 3-sum nodes: over GF(2) the checker does not test the connecting matrix
+(`fun N => chOf nd != 3 || isTU 3 3 N` is constantly `true` for `chOf nd = 2`). -/
+example : (fun N : Mat => (2 : Nat) != 3 || isTU 3 3 N) = fun _ => true := rfl
+
+end Examples4
 
 end Cmr.Props.C03TU
